@@ -1023,6 +1023,8 @@ Proof.
   intros st l. unfold sockaddr_step.
   destruct (sym_eqb (fst l) "if").
   { destruct (snd l) as [|[ | |] [|[ | |] [|? ?]]]; exists []; rewrite app_nil_r; reflexivity. }
+  destruct (sym_eqb (fst l) "ifrename").
+  { destruct (snd l) as [|[ | |] [|[ | |] [|? ?]]]; exists []; rewrite app_nil_r; reflexivity. }
   destruct (sym_eqb (fst l) "keep").
   { destruct (keep_lines (sa_tbl st) (snd l)) as [ls|]; [exists [ls]; reflexivity|exists []; rewrite app_nil_r; reflexivity]. }
   destruct (sym_eqb (fst l) "keepz").
